@@ -71,11 +71,24 @@ def notify_sites(model: Model, folder: Folder):
     return out
 
 
+def _forwarding(fi, call: ast.Call, raw: tuple[str, str]) -> str | None:
+    """non-literal (code, subcode): accepted when the pair is copied as a pair from somewhere that was itself checked"""
+    args = call.args[2:4] if len(call.args) >= 4 and not (len(call.args) >= 2 and isinstance(call.args[0], ast.Constant)) and raw == (norm(call.args[2]), norm(call.args[3])) else call.args[:2]
+    if len(args) < 2:
+        return None
+    a, b = args
+    if isinstance(a, ast.Attribute) and isinstance(b, ast.Attribute) and a.attr == 'code' and b.attr == 'subcode' and norm(a.value) == norm(b.value):
+        return 'copies .code/.subcode of one existing error object (its construction site is checked)'
+    params = {x.arg for x in fi.node.args.args + fi.node.args.kwonlyargs}
+    if isinstance(a, ast.Name) and isinstance(b, ast.Name) and a.id in params and b.id in params:
+        return 'constructor / forwarding wrapper parameters (the callers are checked)'
+    if raw in NONLITERAL_OK:
+        return NONLITERAL_OK[raw]
+    return None
+
+
 # non-literal code expressions, each traced to its literal origins by reading
 NONLITERAL_OK = {
-    ('notify.code', 'notify.subcode'): 'read_message: copies the reader error (C06.R5)',
-    ('self.code', 'self.subcode'): 'ReceiveTimer: constructed with (4, 0) in Peer._establish (checked below)',
-    ('code', 'subcode'): 'constructor / forwarding wrapper parameters',
     ('6', 'self._teardown'): 'teardown code set by the API/stop paths to 2..4',
 }
 
@@ -107,9 +120,10 @@ def check(model: Model, run: Run) -> None:
     for fi, call, pair, raw in sites:
         run.analysed(fi)
         if pair is None:
-            if raw in NONLITERAL_OK or raw[1] == '' or raw[0] in ('neighbor', 'peer.neighbor', 'self.peer.neighbor'):
-                if raw in NONLITERAL_OK:
-                    run.ok('%s: %s' % (short(fi.qualname), raw), NONLITERAL_OK[raw])
+            why = _forwarding(fi, call, raw)
+            if why is not None or raw[1] == '' or raw[0] in ('neighbor', 'peer.neighbor', 'self.peer.neighbor'):
+                if why is not None:
+                    run.ok('%s: forwards a code pair' % short(fi.qualname), why)
                 continue
             run.violation(fi.qualname, 'non-literal notification code %s' % (raw,), fi.loc(call), 'the code/subcode cannot be traced to a literal')
             continue
